@@ -267,9 +267,9 @@ func checkTarget(p *load.Program, r *kit.Report) {
 		h := lin.Of(call.Call.Args[2])
 		cnt, _ := kit.ConstInt(call.Call.Args[3])
 		switch {
-		case h.Equal(kit.LinAtom("p:height").AddK(-1)) && cnt == 3:
+		case h.Equal(pAtom(f, 2).AddK(-1)) && cnt == 3:
 			last = call
-		case h.Equal(kit.LinAtom("p:height").AddK(-145)) && cnt == 3:
+		case h.Equal(pAtom(f, 2).AddK(-145)) && cnt == 3:
 			first = call
 		default:
 			r.Bad("CONST-TABLE", "Target/median-at:"+h.String(), posOf(p, call), "median taken at %s over %d samples: the network uses height-1 and height-145 over 3", h, cnt)
@@ -498,12 +498,7 @@ func checkMedian(p *load.Program, r *kit.Report) {
 		return
 	}
 	lin := kit.NewLin(f)
-	var count *ssa.Parameter
-	for _, prm := range f.Params {
-		if prm.Name() == "count" {
-			count = prm
-		}
-	}
+	count := prmAt(f, 3)
 	// callers all pass 3 (checked in Target); guard count == 3
 	is3 := kit.FindGuards(f, func(c ssa.Value) (bool, bool) {
 		b, ok := c.(*ssa.BinOp)
@@ -632,8 +627,8 @@ func checkMedian(p *load.Program, r *kit.Report) {
 		for _, c := range kit.CallsTo(f, H+".Branch.TimeAndWork") {
 			hv = lin.Of(c.(*ssa.Call).Call.Args[2])
 		}
-		sum := idx.Add(kit.LinAtom("p:height")).Sub(hv)
-		if !sum.Equal(kit.LinAtom("p:count").AddK(-1)) {
+		sum := idx.Add(pAtom(f, 2)).Sub(hv)
+		if !sum.Equal(pAtom(f, 3).AddK(-1)) {
 			badP = "sample at height h is stored at index " + idx.String() + " (h = " + hv.String() + "): samples are not oldest-first ending at `height`"
 		}
 	})
@@ -667,7 +662,7 @@ func checkMedian(p *load.Program, r *kit.Report) {
 			if kc != 1 {
 				badM = fmt.Sprintf("returns element %d, want the middle (1)", kc)
 			}
-		} else if idx.String() != "(p:count)/(2)" {
+		} else if idx.String() != "("+pAtom(f, 3).String()+")/(2)" {
 			badM = "returns element " + idx.String() + ", want count/2"
 		}
 		// time and work from the same element
